@@ -214,6 +214,9 @@ private:
                log_.c_str(), choices().c_str());
         for (auto& t : threads_)
             printf("THREAD %d finished=%d kind=%d notified=%d\n", t->id, t->finished, t->kind, t->notified);
+        // the hook inspects the component (e.g. Semaphore::value()); if that goes through a shim primitive (an atomic
+        // member, a mutex) it must not re-enter the scheduler, whose lock this thread holds: switch the shim off first
+        active_ = false;
         if (on_deadlock) on_deadlock();
         fflush(stdout);
         _exit(3);
